@@ -10,7 +10,7 @@ func init() {
 	register("C16", &Checker{
 		Run: checkC16,
 		Explain: "Decided (S1): origin can influence behaviour only through the Go representation of a value, so the checker computes the value universe U — every Go dynamic type that a MakeInterface instruction of the module can put into a Borno value position (results of eval / built-ins, environment and container stores, literals) — groups it by Borno kind (number, string, bool, array, object, function) and requires exactly one representation per kind; every producer of an extra representation is reported with its producing site. " +
-			"Also decided: no value of a non-Borno Go type ('other' kind) enters the universe. Not decided: behaviour of equal representations with different content (that is C02/C14/C15); a tree that keeps two representations but treats them uniformly at every consumer would be rejected (sufficient-condition rule, stated in DESIGN.md).",
+			"Also decided: no value of a non-Borno Go type ('other' kind) enters the universe; and (S3) no code outside eval's dispatch tests the syntactic kind of an operand node (documented parser sites excepted), so a literal and a computed value of the same content cannot be told apart by syntax. Not decided: behaviour of equal representations with different content (that is C02/C14/C15); a tree that keeps two representations but treats them uniformly at every consumer would be rejected (sufficient-condition rule, stated in DESIGN.md).",
 		Rule:    "obligation = (kind, representation, producing MakeInterface site); non-trivial when the site creates a numeric or string value (the kinds that can have several Go representations)",
 		Trusted: []string{"go/types, go/ssa (x/tools v0.29.0)", "classification of MakeInterface consumers: values passed only to fmt/errors variadics are not Borno values"},
 	})
@@ -81,6 +81,10 @@ func checkC16(p *Prog, l *Ledger) {
 		}
 	}
 	l.RequireMin("C16/S1-representation", 20, found, "value producers (MakeInterface into a Borno value position)")
+	// S3: origin can also leak through syntax — the evaluator must not look at the syntactic form of an operand
+	// (a literal 0 and a computed 0 must behave alike); node-kind tests exist only in eval's dispatch and at the
+	// documented parser sites
+	checkNodeKindTests(p, l, "C16/S3-syntactic-origin")
 	for _, k := range []string{"number", "string", "bool", "array", "object", "function"} {
 		if len(u.ByKind[k]) == 0 {
 			l.Violate("C16/S1-kinds", "kind:"+k, "", "no producer of kind "+k+" found: universe extraction no longer matches the code")
